@@ -5,7 +5,9 @@ import json, os, subprocess, sys, re, time
 V = '/verif'
 man = json.load(open(V + '/MANIFEST.json'))
 claimed = {c['property_id'] for c in man['checks']}
-seeds = sys.argv[1:] or sorted(d for d in os.listdir(V + '/seeded') if os.path.isdir(V + '/seeded/' + d))
+IN_REPO = '--in-repo' in sys.argv
+sys.argv = [a for a in sys.argv if a != '--in-repo']
+seeds = sys.argv[1:] or sorted(d for d in os.listdir(V + '/seeded') if os.path.isdir(V + '/seeded/' + d) and not d.startswith('_'))
 resp = V + '/seeded/RESULTS.json'
 res = json.load(open(resp)) if os.path.exists(resp) else {}
 for s in seeds:
@@ -15,9 +17,19 @@ for s in seeds:
         res[s] = {'property': pid, 'outcome': 'check not integrated yet'}
         continue
     t0 = time.time()
-    p = subprocess.run([V + '/tools/mutant_try.sh', pid, '%s/seeded/%s/patch.diff' % (V, s)], stdout=subprocess.PIPE,
-                       stderr=subprocess.STDOUT, text=True)
-    out = p.stdout
+    if IN_REPO:
+        # the official way: apply to /repo itself, run the registered quick command, undo straight afterwards
+        assert subprocess.run(['git', '-C', '/repo', 'status', '--porcelain', '--untracked-files=no'], capture_output=True, text=True).stdout.strip() == '', '/repo not clean'
+        subprocess.run(['git', '-C', '/repo', 'apply', '%s/seeded/%s/patch.diff' % (V, s)], check=True)
+        try:
+            p = subprocess.run(['./check', pid, '--tier', 'quick'], cwd=V, stdout=subprocess.PIPE, stderr=subprocess.STDOUT, text=True)
+            out = p.stdout + '\nrc=%d\n' % p.returncode
+        finally:
+            subprocess.run(['git', '-C', '/repo', 'checkout', '--', '.'], check=True)
+    else:
+        p = subprocess.run([V + '/tools/mutant_try.sh', pid, '%s/seeded/%s/patch.diff' % (V, s)], stdout=subprocess.PIPE,
+                           stderr=subprocess.STDOUT, text=True)
+        out = p.stdout
     viol = [l for l in out.split('\n') if l.startswith('VIOLATION')]
     rc = re.findall(r'^rc=(\d+)', out, re.M)
     replay_why = None
@@ -30,7 +42,7 @@ for s in seeds:
             pass
     res[s] = {'property': pid, 'outcome': 'caught' if viol else 'MISSED', 'violation_line': viol[0] if viol else None,
               'concrete_replay': bool(viol) and 'no-failing-input-found' not in viol[0], 'why': replay_why,
-              'rc': rc[-1] if rc else None, 'wall_s': round(time.time() - t0)}
+              'rc': rc[-1] if rc else None, 'wall_s': round(time.time() - t0), 'mode': 'applied in /repo, undone afterwards' if IN_REPO else 'scratch copy of /repo'}
     print(s, res[s]['outcome'], res[s]['why'], flush=True)
     json.dump(res, open(resp, 'w'), indent=1, sort_keys=True)
 json.dump(res, open(resp, 'w'), indent=1, sort_keys=True)
